@@ -12,6 +12,8 @@ def jOpP (j : Json) : Except String OpP := do
   match ← jArr j with
   | [.str "proto", steps, n] => pure (.protocol (← jList jPStep steps) ((← optJ jNat n).getD Gen.defaultTimePointsPerStep))
   | [.str "ptc", steps, pts, rel] => pure (.protocolTC (← jList jPStep steps) (← jList jRat pts) ((← optJ jBool rel).getD Gen.defaultRelative))
+  | [.str "protoF", steps, n, k] => pure (.protocolF (← jList jPStep steps) ((← optJ jNat n).getD Gen.defaultTimePointsPerStep) (← jNat k))
+  | [.str "ptcF", steps, pts, rel, k] => pure (.protocolTCF (← jList jPStep steps) (← jList jRat pts) ((← optJ jBool rel).getD Gen.defaultRelative) (← jNat k))
   | _ => do pure (.basic (← jOp j))
 
 def cutsP (ops : List OpP) : List (List OpP) :=
